@@ -116,7 +116,9 @@ class Substitutor(SchemaVisitor[GenericSchema]):
 
         if (schema.props.elements is Nil) and (schema.props.type is Nil):
             elements = []
-            for val in value:
+            for index, val in enumerate(value):
+                if is_ellipsis(val) and (0 < index < len(value) - 1):
+                    raise SubstitutionError("`...` must be first or last element")
                 element = val if is_ellipsis(val) else self._from_native(val)
                 elements.append(element)
             return schema.__class__(schema.props.update(elements=elements))
